@@ -924,7 +924,11 @@ class Interp:
         return d
 
     def ex_JoinedStr(self, n, env):
-        # f-strings occur in messages only: opaque text
+        # f-strings occur in messages only: opaque text (unless a contract module installs `registry.fstring_hook`,
+        # models_dyn: generated identifier names in the compiler)
+        h = getattr(self.registry, "fstring_hook", None)
+        if h is not None:
+            return h(self, n, env)
         return "<fstring>"
 
     def ex_FormattedValue(self, n, env):
@@ -1028,6 +1032,8 @@ class Interp:
         for op, rn in zip(n.ops, n.comparators):
             right = self.eval(rn, env)
             r = self.compare_values(op, left, right)
+            if len(n.ops) == 1 and getattr(r, "elementwise", False):
+                return r  # array-valued comparison produced by a library model (numpy: `arr > 0`)
             t = self.truth(r) if not isinstance(r, (bool, SV)) else r
             if isinstance(t, bool):
                 if not t:
